@@ -218,5 +218,29 @@ theorem mem_entries_iff_get {m : OMap V} (hs : m.Sorted) (k : Bytes) (v : V) :
       simp [List.find?_cons, ha, hne]
       simpa using ih ht
 
+/-- sorted maps are determined by `get` -/
+theorem ext_of_sorted {m1 m2 : OMap V} (h1 : m1.Sorted) (h2 : m2.Sorted) (h : ∀ k, m1.get k = m2.get k) : m1 = m2 := by
+  obtain ⟨l1⟩ := m1
+  obtain ⟨l2⟩ := m2
+  have hmem : ∀ p, p ∈ l1 ↔ p ∈ l2 := by
+    intro p
+    obtain ⟨k, v⟩ := p
+    have a := mem_entries_iff_get h1 k v
+    have b := mem_entries_iff_get h2 k v
+    simp only at a b
+    rw [a, b, h k]
+  have nd : ∀ {l : List (Bytes × V)}, l.Pairwise (fun a b => a.1 < b.1) → l.Nodup := by
+    intro l hl
+    refine List.Pairwise.imp ?_ hl
+    intro a b hab heq
+    rw [heq] at hab
+    exact absurd hab (List.lt_irrefl _)
+  have hperm : l1.Perm l2 := (List.perm_ext_iff_of_nodup (nd h1) (nd h2)).mpr hmem
+  have p1 : l1.Pairwise (fun a b => a.1 < b.1) := h1
+  have p2 : l2.Pairwise (fun a b => a.1 < b.1) := h2
+  have : l1 = l2 := List.Perm.eq_of_pairwise (le := fun (a b : Bytes × V) => a.1 < b.1)
+    (fun a b _ _ hab hba => absurd (List.lt_trans hab hba) (List.lt_irrefl _)) p1 p2 hperm
+  rw [this]
+
 end OMap
 end CGV.Spec
